@@ -1,0 +1,23 @@
+//go:build verif
+
+// Contracts for package ipldutil (properties C07, C22). Comment-only: read by /verif/bin/gsv,
+// never compiled into the package.
+
+package ipldutil
+
+//@ transparent traversal.Budget
+
+//@ func traverser.writeDone
+//@   modifies t.isDone, t.completionErr, t.currentContext
+//@   ensures t.isDone && t.completionErr == err
+
+//@ -- C07: the root load is charged to the link budget by the same rule go-ipld-prime applies to every
+//@ -- later link load (Progress.checkLinkBudget): admitted iff the budget is still positive, then
+//@ -- decremented by exactly one; a budget error is raised only when the budget is exhausted.
+//@ func traverser.start.func1
+//@   lenient
+//@   safety off
+//@   watch budget0: t.budget.LinkBudget
+//@   modifies t.isDone, t.completionErr, t.currentContext, Budget.LinkBudget, Budget.NodeBudget
+//@   callsite LinkSystem.Load: assert t.budget == nil || (old(t.budget.LinkBudget) >= 1 && t.budget.LinkBudget == old(t.budget.LinkBudget) - 1)
+//@   callsite traverser.writeDone argis "&traversal.ErrBudgetExceeded": assert t.budget != nil && old(t.budget.LinkBudget) <= 0
